@@ -1117,12 +1117,43 @@ func execBridge(x *fw.Ctx, c Case) {
 		x.Fail(fmt.Sprintf("bridge via=%s fail=changed at=%s", c.Via, d.kinds()), "%s differs from v %s\nv: %s\nlisp: %s\nback: %s", what, d, short(want.canon()), short(sl.Show(obj)), short(got.canon()))
 		return
 	}
+	// a time keeps its zone offset across the bridge (the same instant written
+	// with another offset is other data: it prints as other text)
+	if c.Via != "bag" {
+		if tv, tb := zonedTimes(v, nil), zonedTimes(back, nil); !reflect.DeepEqual(tv, tb) {
+			x.Fail("bridge via="+c.Via+" fail=changed at=time-zone", "%s gives times %v for v with times %v", what, tb, tv)
+			return
+		}
+	}
 	// the input value must not have been changed
 	if v2, _ := goValue(c.Go); !ks["float64"] && !ks["float32"] && !reflect.DeepEqual(v, v2) {
 		x.Fail("bridge fail=input-mutated", "the Go value changed while being converted: %v", v)
 	}
 	x.Cover("bridge:roundtrip-ok")
 	x.CoverN("bridge:nodes", want.size())
+}
+
+// zonedTimes collects the times of a Go value in traversal order (map keys
+// sorted), each written with its own zone offset.
+func zonedTimes(v any, out []string) []string {
+	switch tv := v.(type) {
+	case time.Time:
+		out = append(out, tv.Format(time.RFC3339Nano))
+	case []any:
+		for _, e := range tv {
+			out = zonedTimes(e, out)
+		}
+	case map[string]any:
+		keys := make([]string, 0, len(tv))
+		for k := range tv {
+			keys = append(keys, k)
+		}
+		sort.Strings(keys)
+		for _, k := range keys {
+			out = zonedTimes(tv[k], out)
+		}
+	}
+	return out
 }
 
 // ---------------------------------------------------------------- path histories
